@@ -5,7 +5,10 @@
 //
 // case lines
 //
-//	H <backend> <op>...     backend = mem | sql | cmdmem | cmdsql
+//	H <backend> <op>...     backend = mem | sql | cmdmem | cmdsql; every sixth case is a near-collision history
+//	                        (storew.GenCollisionOps: keys that differ in one field / at one field boundary — e.g. only in
+//	                        the user relation, group:g#member vs group:g#admin — stored and then named together in one
+//	                        request under every on_missing / on_duplicate mode)
 //	F <mode> <op>...        sqlite; before every op the write is attempted with operation k failing, for every k
 //	                        (mode b = statement fails before it runs, a = after it ran, c = the connection dies)
 //	X <op>...               sqlite; like F but a child process is killed right before operation k
